@@ -86,9 +86,7 @@ func init() {
 	}
 	reg(repoMod+"vm.newCurvePoint", errRes(2))
 	reg(repoMod+"vm.newTwistPoint", errRes(2))
-	reg(repoMod+"eth_crypto.Ecrecover", func(in *Interp, fr *frame, a []Value, _ *ssa.CallCommon) Value {
-		return Tuple{Slice{}, in.newError("stubbed ecrecover")}
-	})
+	// eth_crypto.Ecrecover runs on the ideal secp256k1 model (secp.go)
 	reg(repoMod+"eth_crypto.SigToPub", errRes(2))
 	reg(repoMod+"eth_crypto/blake2b.F", zeroRes)
 	for _, n := range []string{"G1Add", "G1Mul", "G1MultiExp", "G2Add", "G2Mul", "G2MultiExp", "Pairing", "MapG1", "MapG2"} {
